@@ -12,7 +12,9 @@ pub struct Decl {
     pub name: String,
     pub ty: Ty,
     pub tags: Vec<&'static str>,
-    /// 0 `Option`, 1 `std::option::Option`, 2 `core::option::Option`
+    /// 0 `Option`, 1 `std::option::Option`, 2 `core::option::Option`, 3 `(Option<..>)` (every field
+    /// type parenthesised), 4 the whole struct declared through a `macro_rules!` macro whose field
+    /// types are `$t:ty` fragments (they reach the derive macro inside invisible groups)
     pub opt_spelling: u8,
 }
 
@@ -321,6 +323,30 @@ fn dedup_decls(out: &mut Vec<Decl>) {
     });
 }
 
+/// evolved records inside the chunks of evolved records (a decoder's region of a region)
+fn nested_evolved(out: &mut Vec<Decl>) {
+    let n1v = Val::Rec(vec![Val::U(0), Val::none()]);
+    let mut push = |name: &str, steps: Vec<Step>, fields: Vec<FieldDescr>| {
+        out.push(Decl { name: name.into(), ty: rec(name, steps, fields), tags: vec!["struct", "evolved_nested"], opt_spelling: 0 });
+    };
+    let with_default = |mut f: FieldDescr, d: Val| {
+        f.default = Some(d);
+        f
+    };
+    // the nested record in chunk 0, followed by a sibling, an added field in chunk 1
+    push("EE0", vec![Step::Added("t".into())], vec![fld("a", Ty::U8), fld("x", n1()), fld("b", Ty::U8), with_default(fld("t", Ty::U8), Val::U(5))]);
+    // the nested record is the added field: chunk 1
+    push("EE1", vec![Step::Added("x".into())], vec![fld("a", Ty::U8), with_default(fld("x", n1()), n1v.clone())]);
+    // a sequence of nested records, then a string in a later chunk
+    push(
+        "EE2",
+        vec![Step::Added("t".into()), Step::Removed("zz".into())],
+        vec![fld("x", Ty::Seq(SeqKind::Vec, Box::new(n1()))), with_default(fld("t", Ty::Str), Val::s("d"))],
+    );
+    // optional nested record (made optional by a step), then a sibling
+    push("EE3", vec![Step::MadeOptional("x".into())], vec![fld("x", opt(n1())), fld("b", Ty::U8)]);
+}
+
 /// sorted enums whose constructor names differ in case, digits and underscores: name order is
 /// plain string order (every upper-case letter, digit and '_' sorts before every lower-case letter)
 fn mixed_case_enums(out: &mut Vec<Decl>, ext: &mut Vec<(String, String, usize)>) {
@@ -472,7 +498,9 @@ fn histories(u: &mut Universe, depth: usize) {
                         name: name.clone(),
                         ty: Ty::Record(Arc::new(d)),
                         tags: vec!["history"],
-                        opt_spelling: 0,
+                        // the five spellings rotate over the history declarations, so each one
+                        // meets every kind of evolution step
+                        opt_spelling: (by_steps.len() % 5) as u8,
                     });
                     by_steps.insert(key, name.clone());
                     name
@@ -564,6 +592,7 @@ pub fn build(thorough: bool) -> Universe {
     }
     structs(&mut u.decls);
     dedup_decls(&mut u.decls);
+    nested_evolved(&mut u.decls);
     let mut ext = Vec::new();
     enums(&mut u.decls, &mut ext);
     mixed_case_enums(&mut u.decls, &mut ext);
